@@ -403,7 +403,7 @@ register("C01", streams=[Q("child", apis=["find_matches"], src=False, maxlen=5)]
          rule="random JSON documents (depth<=4, shuffled keys, empty containers, falsy scalars) x child-step paths grown by walking the document (75%) or free (25%); non-trivial = at least one result and >=2 steps, or an exception; distinct by scenario hash",
          assumptions=["floats restricted to half-integers", "slice step 0 and bool indices excluded (not supported steps)"])
 register("C02", streams=[Q("rec", apis=["find_matches"], src=False, maxlen=5)],
-         observables=["results"], oracles=[oracles.reiter_oracle, oracles.big_iteration_oracle_for({"kind": "rec", "n": 180000}), oracles.reuse_oracle],
+         observables=["results"], oracles=[oracles.reiter_oracle, oracles.big_iteration_oracle_for({"kind": "rec", "n": 180000}, {"kind": "rec_scalars", "n": 6000}), oracles.reuse_oracle],
          rule="documents with ragged depth and empty containers x paths with >=1 recursive step mixed with all other step kinds; non-trivial as C01")
 register("C03", streams=[Q("filter", pred="custom", apis=["find_matches"], src=False, share=2), Q("filter", pred="mixed", apis=["find_matches"], src=False, share=1),
                          Q("filterpar", pred="custom", apis=["find_matches"], src=None, share=1, par_filter_par=0.4),
@@ -465,7 +465,7 @@ register("C15", oracles=[oracles.reuse_oracle, oracles.spelling_oracle, oracles.
          rule="derivation DAGs over path / pathd: attribute and item steps of every kind (incl. reserved attribute names, odd builder attributes, unsupported indices), siblings derived before and after their shared prefix was rendered or evaluated, equivalent spellings derived late from one prefix; compared: str()/repr() of every expression, results of evaluating it on random documents (keys with '-' and '_'), errors")
 
 register("C06", streams=[Q("all", apis=ALL_APIS, src=None, share=1, guarded=0.06)], n_quick=1500, n_thorough=60000,
-         observables=["results_exc"], oracles=[oracles.snapshot_oracle, oracles.reuse_oracle], generated=["Stores"],
+         observables=["results_exc"], oracles=[oracles.snapshot_oracle, oracles.reuse_oracle, oracles.interrupted_use_oracle], generated=["Stores"],
          rule="read-only calls (find / find_matches / get_match / get, traced and untraced, from a document or a Match, any has-family predicates) repeated 2-5 times on the same document and the same path object: deep snapshot (container identities, key order, list contents) before = after every call, the path renders like a never-evaluated twin, later evaluations select what the first did; plus the store table regenerated from the source")
 register("C16", streams=[Q("all", apis=ALL_APIS, src=None, share=1)], n_quick=1500, n_thorough=60000,
          observables=["results_exc"], oracles=[oracles.documented_oracle, oracles.slice_mutation_oracle, oracles.deep_oracle, oracles.resume_after_loop_oracle, oracles.dash_root_oracle],
